@@ -61,7 +61,9 @@ def forget_evaluation(error: BaseException, frame: FrameType):
     :param frame: the frame that caught it
     """
     try:
-        tb = error.__traceback__
+        # (through the type, not through the object: the exception is of the application's making - a frozen dataclass
+        # refuses to have its attributes set, an object can answer every attribute with something of its own)
+        tb = BaseException.__traceback__.__get__(error)
         while tb is not None:
             # (no calls in here: the application can be close to the recursion limit)
             running = tb.tb_frame
@@ -71,9 +73,12 @@ def forget_evaluation(error: BaseException, frame: FrameType):
                 # this entry is of a frame that does not run under ours: it was there before
                 break
             tb = tb.tb_next
-        error.__traceback__ = tb
+        BaseException.with_traceback(error, tb)
     except BaseException:
-        error.__traceback__ = None
+        try:
+            BaseException.with_traceback(error, None)
+        except BaseException:
+            pass
 
 
 class FailedExpression(Exception):
@@ -149,7 +154,7 @@ class ActionContext(abc.ABC):
             forget_evaluation(e, sys._getframe())
             # the text of the exception is data of the program (the key that is missing, a whole document that cannot
             # be parsed): it is held to the string limit like the values
-            message = self.__error_text(e)[:max(self.collection_config.max_string_length, len(type(e).__name__))]
+            message = self.__error_text(e)[:max(self.collection_config.max_string_length, 30)]
             # (with what has been recorded so far: the ids handed out for it are known to the identity cache, a later
             # watch or log field that reaches the same values refers to these entries)
             return WatchResult(source, watch, None, message), var_processor.var_lookup, message
